@@ -119,6 +119,12 @@ def _gcall_for(pid):
 
 
 PLAN["C06"]["kernels"] = list(PLAN["C06"]["kernels"]) + [r"method:(arg)?sort_next", r"argsort_strings", r"sort_asstrings"]
+# Engine G obligations that are not kernel calls (recursive virtual calls, node constructions) are routed by the same
+# patterns: "method:<name>" / "construct:<class>"
+PLAN["C11"]["kernels"] = list(PLAN["C11"]["kernels"]) + [r"^construct:"]
+PLAN["C05"]["kernels"] = list(PLAN["C05"]["kernels"]) + [r"^method:(num|offsets_and_flattened|localindex)"]
+PLAN["C09"]["kernels"] = list(PLAN["C09"]["kernels"]) + [r"^method:rpad", r"^construct:(ByteMasked|BitMasked|Unmasked)"]
+PLAN["C07"]["kernels"] = list(PLAN["C07"]["kernels"]) + [r"^method:combinations"]
 for _pid in ("C01", "C02", "C03", "C04", "C05", "C06", "C07", "C08", "C09", "C11"):
     PLAN[_pid].setdefault("extra", [])
     PLAN[_pid]["extra"] = list(PLAN[_pid]["extra"]) + [_gcall_for(_pid)]
